@@ -155,3 +155,44 @@ func (s *XXH32Stream) Sum32() uint32 {
 	h += uint32(s.total)
 	return xxhFinal(h, s.mem[:s.memN])
 }
+
+// SolveZero overwrites the last four bytes of b so that XXH32(b, 0) == 0. It needs the
+// last step of the hash to be a 4-byte step: len(b)%4 == 0 and len(b)%16 >= 4.
+// (The final avalanche maps 0 to 0 and is a bijection; the 4-byte step is affine in the
+// word with an odd multiplier, hence invertible.)
+func SolveZero(b []byte) bool {
+	n := len(b)
+	if n%4 != 0 || n%16 < 4 {
+		return false
+	}
+	var h uint32
+	p := 0
+	if n >= 16 {
+		var zero uint32
+		v1, v2, v3, v4 := zero+p32_1+p32_2, zero+p32_2, zero, zero-p32_1
+		for ; p+16 <= n; p += 16 {
+			v1 = round32(v1, rd32(b[p:]))
+			v2 = round32(v2, rd32(b[p+4:]))
+			v3 = round32(v3, rd32(b[p+8:]))
+			v4 = round32(v4, rd32(b[p+12:]))
+		}
+		h = rotl(v1, 1) + rotl(v2, 7) + rotl(v3, 12) + rotl(v4, 18)
+	} else {
+		h = p32_5
+	}
+	h += uint32(n)
+	for ; p+4 <= n-4; p += 4 {
+		h += rd32(b[p:]) * p32_3
+		h = rotl(h, 17) * p32_4
+	}
+	// need h + w*P3 == 0
+	inv := p32_3 // Newton iteration for the inverse of an odd number mod 2^32
+	for i := 0; i < 5; i++ {
+		inv *= 2 - p32_3*inv
+	}
+	w := (zero32() - h) * inv
+	b[n-4], b[n-3], b[n-2], b[n-1] = byte(w), byte(w>>8), byte(w>>16), byte(w>>24)
+	return XXH32(b, 0) == 0
+}
+
+func zero32() uint32 { return 0 }
